@@ -1,0 +1,18 @@
+"""Item access without side effects."""
+
+from typing import Any
+
+
+def getitem(obj: Any, key: Any) -> Any:
+    """Same as `obj[key]`, but a missing key is never added to _obj_.
+
+    Looking up a missing key in a `collections.defaultdict`, or any other `dict`
+    with a `__missing__` method, would insert it.
+    """
+    if (
+        isinstance(obj, dict)
+        and hasattr(type(obj), "__missing__")
+        and key not in obj
+    ):
+        raise KeyError(key)
+    return obj[key]
